@@ -41,6 +41,8 @@ type Input struct {
 	Env []EnvVar `json:"env,omitempty"`
 	// case class CONC (conc.go): many executions of Hook.Run at the same time; the tasks are Parts
 	Conc *ConcCfg `json:"conc,omitempty"`
+	// case class WAYS (ways.go): HOW the hook writes each output file (nil: in place, at once - class RUN)
+	Ways *Ways `json:"ways,omitempty"`
 }
 
 // EnvVar is one variable of the operator's own environment.  Var 0..5 are the six contract
@@ -386,6 +388,9 @@ func Run(in Input) Obs {
 		"ADMISSION_RESPONSE_PATH":  in.content("admission", in.Admission),
 		"CONVERSION_RESPONSE_PATH": in.content("conversion", in.Conversion),
 	}
+	if in.Ways != nil {
+		in.addWays(files)
+	}
 	if in.Concurrent && len(calls) == 2 {
 		s.Do(opsim.Action{Kind: "Finish", Q: 2, Ok: true})
 	}
@@ -483,10 +488,14 @@ func Render(in Input, obs *Obs, crash string) core.Case {
 	}
 	c := core.Case{}
 	st := map[string]int{"success": 0, "fail": 1, "none": 2, "": 2}[o.Status]
-	c.Coq = fmt.Sprintf("CRun (mkIn %s %s %s %s %s %s %d %s, mkOb %s %s %s %s %s %s %d %d %d %s %s %s %s %s)",
+	coqEnv := core.CoqList(in.Env, func(e EnvVar) string { return fmt.Sprintf("(%d, %d)", e.Var, e.Val) })
+	coqIn := fmt.Sprintf("CRun (mkIn %s %s %s %s %s %s %d %s,",
 		core.CoqZ(int64(in.Exit)), in.kindCode("metrics", in.Metrics), in.kindCode("patch", in.Patch), in.kindCode("admission", in.Admission), in.kindCode("conversion", in.Conversion),
-		core.CoqBool(in.Concurrent), in.NameLen,
-		core.CoqList(in.Env, func(e EnvVar) string { return fmt.Sprintf("(%d, %d)", e.Var, e.Val) }),
+		core.CoqBool(in.Concurrent), in.NameLen, coqEnv)
+	if in.Ways != nil {
+		coqIn = fmt.Sprintf("CWays (mkWI %s %s %d %s %s) (", core.CoqZ(int64(in.Exit)), core.CoqBool(in.Concurrent), in.NameLen, coqEnv, in.coqJobs())
+	}
+	c.Coq = fmt.Sprintf("%s mkOb %s %s %s %s %s %s %d %d %d %s %s %s %s %s)", coqIn,
 		core.CoqBool(o.Started), core.CoqBool(o.CwdIsHookDir), core.CoqBool(o.EnvOK), core.CoqBool(o.ContextMatches),
 		core.CoqBool(o.FilesEmpty), core.CoqBool(o.PathsDistinct), o.TmpDuring, st, max0(o.TmpAfter),
 		core.CoqBool(o.MetricApplied), core.CoqBool(o.PatchApplied), core.CoqBool(crash != "" || o.Note != ""),
@@ -512,6 +521,10 @@ func Render(in Input, obs *Obs, crash string) core.Case {
 		c.Tags = append(c.Tags, "text:"+in.TextFile, "mut:"+in.Mut, "mut:"+in.TextFile+":"+in.Mut)
 	}
 	c.Tags = append(c.Tags, in.envTags()...)
+	if in.Ways != nil {
+		c.Key += "/ways" + in.waysKey()
+		c.Tags = append(c.Tags, in.waysTags()...)
+	}
 	return c
 }
 
@@ -659,6 +672,10 @@ func Gen(r *core.Rng, tier string) ([]core.In[Input], bool) {
 	for _, n := range []int{150, 188, 189, 190, 191, 192, 193, 200} {
 		add(Input{Exit: 0, Metrics: "empty", Patch: "empty", Admission: "empty", Conversion: "empty", NameLen: n}, "longname")
 	}
+	// ways of writing: a patch moved onto $KUBERNETES_PATCH_PATH (valid, truncated)
+	for _, in := range waysWitnesses() {
+		add(in, "corpus")
+	}
 	// literal texts: one per mutation kind and file
 	for _, in := range textCorpus() {
 		add(in, "text-corpus")
@@ -703,6 +720,17 @@ func Gen(r *core.Rng, tier string) ([]core.In[Input], bool) {
 			add(genEnvCase(er), "env")
 		}
 		genConcStream(r.Fork(), 36, add)
+		// ways of writing: every file x outcome class x way, every corpus text in a way (rotation), random combinations
+		for _, in := range waysSystematic(false) {
+			add(in, "ways-systematic")
+		}
+		wr := r.Fork()
+		for _, in := range waysTexts(wr, false) {
+			add(in, "ways-text")
+		}
+		for i := 0; i < 60; i++ {
+			add(genWaysCase(wr), "ways-random")
+		}
 		return spread(ins, concs), false
 	}
 	nEnv := 300
@@ -752,6 +780,25 @@ func Gen(r *core.Rng, tier string) ([]core.In[Input], bool) {
 		}
 	}
 	genConcStream(r.Fork(), nConc, add)
+	{
+		wr := r.Fork()
+		nWays := 600
+		for _, in := range waysSystematic(tier == "thorough") {
+			add(in, "ways-systematic")
+		}
+		for _, in := range waysTexts(wr, tier == "thorough") {
+			add(in, "ways-text")
+		}
+		if tier == "thorough" {
+			nWays = 3000
+			for _, in := range waysProduct() {
+				add(in, "ways-product")
+			}
+		}
+		for i := 0; i < nWays; i++ {
+			add(genWaysCase(wr), "ways-random")
+		}
+	}
 	return spread(ins, concs), false
 }
 
@@ -776,7 +823,7 @@ func spread(ins, concs []core.In[Input]) []core.In[Input] {
 var _ = sort.Ints
 
 var Driver = core.Driver[Input, Obs]{
-	Spec: core.Spec{Property: "C12", Imports: []string{"C12_Model", "C12_Spec", "C12_ConcModel", "C12_ConcSpec", "C12_Corr"}, Corr: "C12_Corr", ShrinkKey: "parts",
-		Rule: "one hook with two schedule bindings in two queues run by the real operator; the scripted hook reports cwd, environment, context file, initial content of the output files and the temp-dir listing, then ends with exit code in {0,1,2,137} and each of the four output files in {empty, valid, truncated, wrong type}; observed: task status, temp dir afterwards, whether the metric / the patch took effect, path uniqueness across two concurrent executions; quick = every exit code x every single-file state + 60 random combinations + corpus; thorough = the full product (exhaustive); the longname stream uses hook names whose temp-file names straddle the 255-byte file-name limit; every case is non-trivial and distinct by its parameters; TEXT cases: one of the metrics / admission-response / conversion-response files holds a literal text (the model reads it byte by byte): valid texts (1-4 metric operations in the documented forms, one response object; varied whitespace, key order, escapes, UTF-8, number forms) and texts broken by a mutation grammar (tags mut:<kind>): trunc, del/ins/dup of one structural byte, stray closer/opener/separator at a value boundary, value of another JSON type, garbage after valid, whitespace only, only a closer, control byte in a string, bad escape, bad number, case-changed keys, unknown keys, null values, duplicate keys, violated metric rules, non-object documents; a fixed corpus holds texts of every kind; quick = corpus + 180 generated texts, thorough = corpus + 5670, search = corpus + 1680; distinct = distinct by parameters and text; ENV cases (tags env:contract / env:unrelated / env:both, envvar:<NAME>, envfile:<absent|empty|content>, envdup): the operator's OWN environment is set (os.Setenv in the operator's process before it loads the hook, restored afterwards; contract variables the case does not mention are removed) to 1-4 variables: the six contract variables with foreign values (a path outside the temp directory: no such file / an empty file / a file with content) and unrelated variables; the scripted hook reports what it finds under the six variables and under every variable of the case, classified as this execution's own file of kind f / the operator's value / absent / other, compared with the model's child environment; after the run the foreign files are checked for changes; quick = 16 fixed + 56 generated, thorough = 16 + 72 exhaustive single-variable cases + 1500, search = 16 + 300; CONC cases (tags class:conc, conc-queues:<n>, conc-procs:<GOMAXPROCS>, conc-hold, conc-biggest:<size class>, conc-same-hook, conc-failing-hook): the real Hook.Run called from one goroutine per queue (2-12 queues, 2-6 tasks each, the same hook in several queues and different hooks, one hook always exiting non-zero), free running or in lockstep rounds with every hook process of a round held open, GOMAXPROCS 1 / 2 / 4 / unchanged, a scenario of n executions run up to max(1, 48/n) times (the first run with an execution that is not as expected is handed on, else the last); a task's contexts are segments of schedule / onStartup / group contexts, documents from 2 bytes to about 400 KiB; which hook-process report belongs to which call is established through the object-patch file / the exit status, never through the context file; every execution is judged by itself (what ITS hook process read, byte for byte, against ITS task; own directory, own empty output files, names unique over all executions of the case, outputs read back, temp directory empty at the end and holding five files per open execution in a lockstep round); delta debugging drops tasks; quick = 5 fixed + 36 generated, thorough = 5 + 600, search = 5 + 150"},
+	Spec: core.Spec{Property: "C12", Imports: []string{"C12_Model", "C12_Spec", "C12_ConcModel", "C12_ConcSpec", "C12_FsModel", "C12_FsSpec", "C12_Corr"}, Corr: "C12_Corr", ShrinkKey: "parts",
+		Rule: "one hook with two schedule bindings in two queues run by the real operator; the scripted hook reports cwd, environment, context file, initial content of the output files and the temp-dir listing, then ends with exit code in {0,1,2,137} and each of the four output files in {empty, valid, truncated, wrong type}; observed: task status, temp dir afterwards, whether the metric / the patch took effect, path uniqueness across two concurrent executions; quick = every exit code x every single-file state + 60 random combinations + corpus; thorough = the full product (exhaustive); the longname stream uses hook names whose temp-file names straddle the 255-byte file-name limit; every case is non-trivial and distinct by its parameters; TEXT cases: one of the metrics / admission-response / conversion-response files holds a literal text (the model reads it byte by byte): valid texts (1-4 metric operations in the documented forms, one response object; varied whitespace, key order, escapes, UTF-8, number forms) and texts broken by a mutation grammar (tags mut:<kind>): trunc, del/ins/dup of one structural byte, stray closer/opener/separator at a value boundary, value of another JSON type, garbage after valid, whitespace only, only a closer, control byte in a string, bad escape, bad number, case-changed keys, unknown keys, null values, duplicate keys, violated metric rules, non-object documents; a fixed corpus holds texts of every kind; quick = corpus + 180 generated texts, thorough = corpus + 5670, search = corpus + 1680; distinct = distinct by parameters and text; ENV cases (tags env:contract / env:unrelated / env:both, envvar:<NAME>, envfile:<absent|empty|content>, envdup): the operator's OWN environment is set (os.Setenv in the operator's process before it loads the hook, restored afterwards; contract variables the case does not mention are removed) to 1-4 variables: the six contract variables with foreign values (a path outside the temp directory: no such file / an empty file / a file with content) and unrelated variables; the scripted hook reports what it finds under the six variables and under every variable of the case, classified as this execution's own file of kind f / the operator's value / absent / other, compared with the model's child environment; after the run the foreign files are checked for changes; quick = 16 fixed + 56 generated, thorough = 16 + 72 exhaustive single-variable cases + 1500, search = 16 + 300; CONC cases (tags class:conc, conc-queues:<n>, conc-procs:<GOMAXPROCS>, conc-hold, conc-biggest:<size class>, conc-same-hook, conc-failing-hook): the real Hook.Run called from one goroutine per queue (2-12 queues, 2-6 tasks each, the same hook in several queues and different hooks, one hook always exiting non-zero), free running or in lockstep rounds with every hook process of a round held open, GOMAXPROCS 1 / 2 / 4 / unchanged, a scenario of n executions run up to max(1, 48/n) times (the first run with an execution that is not as expected is handed on, else the last); a task's contexts are segments of schedule / onStartup / group contexts, documents from 2 bytes to about 400 KiB; which hook-process report belongs to which call is established through the object-patch file / the exit status, never through the context file; every execution is judged by itself (what ITS hook process read, byte for byte, against ITS task; own directory, own empty output files, names unique over all executions of the case, outputs read back, temp directory empty at the end and holding five files per open execution in a lockstep round); delta debugging drops tasks; quick = 5 fixed + 36 generated, thorough = 5 + 600, search = 5 + 150; WAYS cases (tags class:ways, way:<how>, way:<file>:<how>, way:<how>:<outcome class>, way-steps:<1|2|3+>): HOW the hook writes each output file - in place, append only (never truncates), a scratch file beside it renamed onto the path, removed and created again, through a second hard link, a symbolic link put at the path (target outside the temp directory), removed for good - and cut offsets that split the content into chunks written one open/write/close each; the scripted hook performs exactly these system calls (cmd/hookstub WaySpec, handed over in the files map under WAY:<VAR>), the model runs the same operations on a file system of names, inodes and links and reads the four paths back (C12_FsModel), the predicate is C12_Spec.P for what is at the paths at exit (C12_FsSpec); the temp directory must end empty for every way; streams: ways-systematic = every output file x {valid, truncated, wrong type, empty} x every way (with 0-3 cuts) + removal per file with exit 0 and 1, ways-text = every text of the fixed corpus (every mutation kind of every JSON file) written in a way (the six ways in rotation; thorough: every text in every way), ways-random = all four files at once with random outcome classes / generated texts, ways and cuts, now and then a non-zero exit, a concurrent execution, contract variables in the operator's environment, a removed file; quick = 2 witnesses + 104 systematic + 94 texts + 60 random, thorough = 2 + 280 + 564 + 1296 (product of the ways over four valid files) + 3000, search = 2 + 104 + 94 + 600"},
 	Gen: Gen, Run: Run, Render: Render, PerShard: 60, Workers: 14, CaseTimout: 40 * time.Second,
 }
